@@ -169,6 +169,9 @@ def _equilibrium(case, spl, ps):
         return result(SKIP, what="process grid not admissible")
     P = nprocs[0] * nprocs[1]
     c = simrun.small_constants(npts, iota=case["iota"], seed=case["seed"] % 1000, eps=0.0, dt=2)
+    from vlib import contracts
+    contracts.install()
+    contracts.reset()
 
     def prog(rank):
         comm = MPI.COMM_WORLD
@@ -192,6 +195,9 @@ def _equilibrium(case, spl, ps):
         return result(VIOL, cls=[base + "/exception"], events=ev, key="C15:exception:%s" % type(err[1]).__name__,
                       what="rank %d raised %r during the equilibrium step on grid %r" % (err[0], err[1], nprocs), witness=wit)
     ev["equilibrium_runs"] = 1
+    ev["contract_evaluations"] = contracts.STATE["evaluations"]
+    if contracts.STATE["violations"]:
+        return result(VIOL, cls=[base], events=ev, key="C15:ride-along/interpolant-postcondition", what=contracts.STATE["violations"][0], witness=wit)
     for k in ("stage_points_compared", "roundtrip_points", "odd_ntheta_runs", "aliased_mode_runs", "chi1_runs", "kinetic_runs"):
         ev.setdefault(k, 0)
     shape3 = tuple(npts[:3])
